@@ -380,6 +380,8 @@ class CppEval:
         if ck == 'FloatingCast':
             if ty not in FLOAT_TYPES:
                 raise Unsupported('floating cast to %s' % ty)
+            if base_type(sub['type']) == 'float' and ty == 'double':
+                return v                       # every float is a double: the conversion is exact
             return self.prim['round'](v, ctx=self.ctx(ty))
         if ck == 'IntegralToFloating':
             return self.to_float_type(v, ty)
@@ -662,6 +664,8 @@ class CppEval:
             for i in range(a.i, b.i):
                 acc = self._arith('+', acc, self.convert(a.lst[i], ty), ty)
             return acc
+        if name in ('make_tuple', 'make_pair'):
+            return tuple(self._copy(self.rv(x, env)) for x in args)
         if name == 'assert' or name == '__assert_fail':
             raise Stuck('assertion failed')
         if name in self.funcs:
